@@ -85,29 +85,33 @@ func runSigVerify(ctx *vrun.Ctx) error {
 	// 1. algebra: the rule table against the equations over toy groups
 	qs := []int{7}
 	if ctx.Thorough {
-		qs = []int{5, 7, 11, 13}
+		qs = []int{5, 7, 11}
 	}
+	algErr := make(chan error, len(qs))
 	for _, q := range qs {
-		cfg := fmt.Sprintf("CONSTANTS Q = %d\n Instances = 1\nINIT InitAlgebra\nNEXT NextAlgebra\nINVARIANTS AlgebraOK ExcusesExact\n", q)
-		res, err := tlc.Run(tlc.Opts{SpecDir: ctx.SpecDir("secp"), Module: "SigVerify", CfgText: cfg, Workers: 2,
-			Timeout: 15 * time.Minute, Scratch: ctx.Scratch, HeapGB: 3})
-		if err != nil {
-			return fmt.Errorf("sigverify algebra q=%d: %w", q, err)
-		}
-		if !res.OK {
-			return fmt.Errorf("sigverify algebra q=%d: the rule table disagrees with the equations (%s %s)", q, res.ErrKind, res.ErrName)
-		}
-		if res.Distinct < int64((q-1)*(q-1)*q*(q-1)) { // at least every BIP340 witness
-			return fmt.Errorf("sigverify algebra q=%d: %d witnesses", q, res.Distinct)
-		}
-		ctx.AddModel(res.Distinct, res.Generated)
-		ctx.AddExtra("algebra_witnesses", res.Distinct)
-		ctx.Logf("sigverify: rule table agrees with the toy-group equations for q=%d (%d witnesses)", q, res.Distinct)
+		go func(q int) {
+			cfg := fmt.Sprintf("CONSTANTS Q = %d\n Instances = 1\nINIT InitAlgebra\nNEXT NextAlgebra\nINVARIANTS AlgebraOK ExcusesExact\n", q)
+			res, err := tlc.Run(tlc.Opts{SpecDir: ctx.SpecDir("secp"), Module: "SigVerify", CfgText: cfg, Workers: 1,
+				Timeout: 25 * time.Minute, Scratch: ctx.Scratch, HeapGB: 3})
+			switch {
+			case err != nil:
+				algErr <- fmt.Errorf("sigverify algebra q=%d: %w", q, err)
+			case !res.OK:
+				algErr <- fmt.Errorf("sigverify algebra q=%d: the rule table disagrees with the equations (%s %s)", q, res.ErrKind, res.ErrName)
+			case res.Distinct < int64((q-1)*(q-1)*q*(q-1)): // at least every BIP340 witness
+				algErr <- fmt.Errorf("sigverify algebra q=%d: %d witnesses", q, res.Distinct)
+			default:
+				ctx.AddModel(res.Distinct, res.Generated)
+				ctx.AddExtra("algebra_witnesses", res.Distinct)
+				ctx.Logf("sigverify: rule table agrees with the toy-group equations for q=%d (%d witnesses)", q, res.Distinct)
+				algErr <- nil
+			}
+		}(q)
 	}
 	// 2. cases
 	inst := 1
 	if ctx.Thorough {
-		inst = 5
+		inst = 4
 	}
 	cfg := fmt.Sprintf("CONSTANTS Q = 7\n Instances = %d\nINIT Init\nNEXT Next\nINVARIANTS SignersVerify\n", inst)
 	res, err := tlc.Run(tlc.Opts{SpecDir: ctx.SpecDir("secp"), Module: "SigVerify", CfgText: cfg, Workers: 2,
@@ -175,6 +179,11 @@ func runSigVerify(ctx *vrun.Ctx) error {
 		"ecdsa/ref/key_neg/true", "ecdsa/ref/key_neg/false"} {
 		if realised[need] == 0 {
 			return fmt.Errorf("sigverify: vacuity: no realised case %s", need)
+		}
+	}
+	for range qs {
+		if err := <-algErr; err != nil {
+			return err
 		}
 	}
 	ctx.AddTraces(int64(total))
